@@ -3,14 +3,14 @@ CONSTANTS
   MaxLen = 4
   MaxLenCheap = 4
   KindLen = 3
-  InitAll = TRUE
+  InitAll = FALSE
   BugNextArgNoSkip = FALSE
   BugUseFlagAll = FALSE
   BugOptionalOrigState = FALSE
   BugNames = "none"
-  BugErrorState = "none"
+  BugErrorState = "product_orig"
   BugMissingIsOther = FALSE
   BugUsage = "none"
 VIEW View
-INVARIANTS TypeOK FamilyTerminates ConsumedExactlyOnce OptionValueNotPositional FlagNeverFails HelpLaw SuccessLeavesNothing ErrorKindLaw ErrorStateLaw UsageModelOK
+INVARIANTS ErrorStateLaw
 CHECK_DEADLOCK FALSE
